@@ -192,6 +192,56 @@ func c17Deaf(variant int) pxScenario {
 	return pxScenario{Icp: 0, Steps: b.steps, Tags: []string{"deaf"}}
 }
 
+// faults and cancellation at the same moment: a group of actions performed without waiting in between, the
+// cancellation either as one of them or from inside the forwarding loop (while it forwards a p -> q envelope)
+func c17Concurrent(what string, inLoop bool, variant int) pxScenario {
+	b := &pxBuilder{tok: 100}
+	b.add(att(1)...)
+	b.add(att(2)...)
+	b.add(att(3)...)
+	b.add(b.send(1, 2))
+	if variant%2 == 1 {
+		b.add(b.send(3, 6)) // a pending dial
+	}
+	var g []PAct
+	switch what {
+	case "failread":
+		g = append(g, PAct{Op: "failread", N: 3})
+	case "failwrite":
+		b.add(PAct{Op: "setw", N: 3, M: "block"})
+		b.add(b.send(1, 3))
+		g = append(g, PAct{Op: "setw", N: 3, M: "fail"})
+	case "dialfail":
+		b.add(b.send(2, 5))
+		g = append(g, PAct{Op: "dial", N: 5, M: "fail"})
+	case "dialok":
+		b.add(b.send(2, 4))
+		b.add(b.send(1, 4))
+		g = append(g, PAct{Op: "dial", N: 4, M: "ok"})
+	case "traffic":
+		g = append(g, b.send(3, 1), b.send(2, 3))
+	case "two-failreads":
+		g = append(g, PAct{Op: "failread", N: 3}, PAct{Op: "failread", N: 2})
+	}
+	if inLoop {
+		a := b.send(1, 2)
+		a.CancelOn = true
+		if variant%3 == 0 {
+			g = append([]PAct{a}, g...)
+		} else {
+			g = append(g, a)
+		}
+	} else {
+		g = append(g, PAct{Op: "cancel"})
+	}
+	b.add(g...)
+	b.add(b.send(1, 2))
+	b.add(PAct{Op: "dial", N: 6, M: "ok"})
+	b.add(b.send(2, 1))
+	return pxScenario{Icp: variant % 2 * 2, ByRef: variant%2 == 0, Steps: b.steps,
+		Tags: []string{"concurrent-cancel", "with=" + what, fmt.Sprintf("cancel-in-forwarding-loop=%v", inLoop)}}
+}
+
 // the scenario with the context cancelled after step pos (the remaining steps still happen)
 func c17CancelAt(sc pxScenario, pos int) pxScenario {
 	steps := append([][]PAct{}, sc.Steps[:pos]...)
@@ -233,6 +283,18 @@ func c17Scenarios() []pxScenario {
 	}
 	for v := 0; v < 12; v++ {
 		out = append(out, c17Deaf(v))
+	}
+	// the schedule is the machine's: each combination is run several times
+	reps := 6
+	if thorough() {
+		reps = 30
+	}
+	for _, what := range []string{"failread", "failwrite", "dialfail", "dialok", "traffic", "two-failreads"} {
+		for _, inLoop := range []bool{false, true} {
+			for v := 0; v < reps; v++ {
+				out = append(out, c17Concurrent(what, inLoop, v))
+			}
+		}
 	}
 	// seeded walks with faults, forged sources and cancellation
 	r := newRand(1700)
